@@ -120,12 +120,20 @@ fn check_written_opt(p: &Payload, opt: WOpt) -> Result<u64, String> {
         }
         _ => unreachable!(),
     }
-    // and through the iterator
+    // and through the iterator: from a slice, and the way a pipe delivers it — byte by byte into the smallest buffer — with one more
+    // element behind it, so that this one does not end where the input ends
     let obs = read_all::<DynTag>(&bytes, &ReadCfg::strict());
     if obs != vec![Obs::Item(Flat::Leaf(id, p.clone()), 0)] {
         return Err(format!("document {:02x?} written for {:?} reads back as {}", bytes, p, render_obs(&obs)));
     }
-    Ok(3)
+    let mut twice = bytes.clone();
+    twice.extend_from_slice(&bytes);
+    let steps = vec![RStep::Chunk(1); twice.len()];
+    let obs = read_from::<DynTag, _>(ScriptRead::new(&twice, steps), &ReadCfg { capacity: Some(16), ..ReadCfg::strict() }, 8);
+    if obs != vec![Obs::Item(Flat::Leaf(id, p.clone()), 0), Obs::Item(Flat::Leaf(id, p.clone()), bytes.len())] {
+        return Err(format!("document {:02x?} written twice for {:?} ({:?}) reads back through 1-byte reads and a 16-byte buffer as {}", bytes, p, opt, render_obs(&obs)));
+    }
+    Ok(4)
 }
 
 fn slice_from_args(a: &[u64]) -> Vec<u8> {
